@@ -307,10 +307,14 @@ where
     L: Flat + Length,
 {
     unsafe fn validate_unchecked(bytes: &[u8]) -> Result<(), Error> {
-        for item_bytes in DataIter::<'_, T, L, _>::new(bytes) {
-            T::validate(item_bytes?)?;
+        let mut iter = DataIter::<'_, T, L, _>::new(bytes);
+        loop {
+            let pos = iter.pos;
+            match iter.next() {
+                Some(item_bytes) => T::validate(item_bytes?).map_err(|e| e.offset(pos + Self::OFFSET_SIZE))?,
+                None => break Ok(()),
+            }
         }
-        Ok(())
     }
 }
 
